@@ -63,6 +63,7 @@ Definition wf_leaf (n : nat) (l : leaf T) : Prop :=
   | LL2Sq _ (El sv) (Some _) => length sv = n
   | LCCL2Sq _ (El sv) (Some _) => length sv = n
   | LCCKLCE _ W => forall v, length (W v) = length v
+  | LFun F => forall v, length (F v) = length v
   | LConst c => length c = n
   | _ => True
   end.
@@ -90,6 +91,12 @@ Proof.
   - split_alias Hpre; run_leaf.
   - split_alias Hpre; run_leaf.
   - split_alias Hpre; run_leaf.
+  - split_alias Hpre; exec.
+    all: absorb1.
+    all: match goal with |- context [st1 ?G ?a ?b ?hv] => is_var hv;
+           assert (W0 : wrote hv (st1 G a b hv) b (G (get hv a))) by (refine (st1_wrote G a b hv _ _); [sd | rewrite Hwf; sd]);
+           pose proof (st1_next G a b hv) as N0; set (h1 := st1 G a b hv) in *; clearbody h1; nxt end.
+    all: absorb; finish.
 Qed.
 
 Lemma leaf_pure_length (l : leaf T) n v : wf_leaf n l -> length v = n -> length (leaf_pure l v) = n.
@@ -97,6 +104,7 @@ Proof.
   intros Hwf Hl; destruct l; cbn [leaf_pure wf_leaf] in *;
     unfold pure_box, pure_l2, pure_ccl2sq, pure_l2sq, pure_ccl1, pure_ccl1l2, pure_l1, pure_l1l2, pure_linf,
       pure_projl1, pure_cckl, pure_huber;
+    try (rewrite Hwf; exact Hl);
     repeat match goal with
            | |- context [match ?g with Some _ => _ | None => _ end] => destruct g
            | |- context [match ?s with Sc _ => _ | El _ => _ end] => destruct s
